@@ -4,6 +4,7 @@ package main
 
 import (
 	"go/ast"
+	"go/token"
 	"go/types"
 	"strings"
 )
@@ -92,20 +93,49 @@ func checkTSNullable(w *World, r *Result) {
 			format, vas := verbArgs(info, call)
 			fixed := false
 			swVar := info.Implicits[cc]
+			// the tests of the node's own Len on the way to this return (branches entered and early exits passed by),
+			// evaluated for a slice (-1) and for fixed arrays (0, 5): the return belongs to the fixed-array side when it
+			// is reached for the latter only
+			reach := map[int64]bool{-1: true, 0: true, 5: true}
+			lenTested := false
 			for _, c := range pathConds(fi.Decl, ret) {
-				if c.expr == nil || !c.truth || c.exit != nil {
+				be, ok := ast.Unparen(c.expr).(*ast.BinaryExpr)
+				if c.expr == nil || !ok {
 					continue
 				}
-				// a test of the Len of the node itself (not of a child's)
-				ast.Inspect(c.expr, func(y ast.Node) bool {
-					if sel, ok := y.(*ast.SelectorExpr); ok && sel.Sel.Name == "Len" {
-						if id := identOf(sel.X); id != nil && swVar != nil && objOf(info, id) == swVar {
-							fixed = true
-						}
+				sel, isSel := ast.Unparen(be.X).(*ast.SelectorExpr)
+				k, isK := constInt(info, be.Y)
+				if !isSel || !isK || sel.Sel.Name != "Len" {
+					continue
+				}
+				if id := identOf(sel.X); id == nil || swVar == nil || objOf(info, id) != swVar {
+					continue
+				}
+				lenTested = true
+				for L := range reach {
+					var v bool
+					switch be.Op {
+					case token.GEQ:
+						v = L >= int64(k)
+					case token.GTR:
+						v = L > int64(k)
+					case token.LSS:
+						v = L < int64(k)
+					case token.LEQ:
+						v = L <= int64(k)
+					case token.EQL:
+						v = L == int64(k)
+					case token.NEQ:
+						v = L != int64(k)
+					default:
+						continue
 					}
-					return true
-				})
+					if v != c.truth {
+						reach[L] = false
+					}
+				}
 			}
+			fixed = lenTested && reach[0] && reach[5] && !reach[-1]
 			// compositional printing: every hole is the printer applied to a direct child of the node, so that the
 			// child's own nullability and aliasing are kept
 			for _, va := range vas {
